@@ -169,6 +169,11 @@ func (pc *parentController) syncRevisions(parent *unstructured.Unstructured, obs
 				pr.syncError = fmt.Errorf("sync hook not defined")
 				return
 			}
+			if pc.isUsingGeneratedLabelSelector() {
+				// The rollout compares observed children, which carry the
+				// controller-uid label, with what this revision desires.
+				addControllerUIDLabel(parent, syncResult.Children)
+			}
 			pr.syncResult = syncResult
 			pr.desiredChildMap = commonv1.MakeRelativeObjectMap(parent, syncResult.Children)
 		}(pr)
@@ -412,6 +417,26 @@ func applyPatch(dest, patch map[string]interface{}, fieldPaths []string) error {
 		}
 	}
 	return nil
+}
+
+// addControllerUIDLabel adds the label that makes a desired child match a
+// generated selector, unless the hook already set one.
+func addControllerUIDLabel(parent *unstructured.Unstructured, children []*unstructured.Unstructured) {
+	for _, obj := range children {
+		// We don't use GetLabels() because that swallows conversion errors;
+		// invalid labels are reported when the selector invariant is enforced.
+		objLabels, _, err := unstructured.NestedStringMap(obj.UnstructuredContent(), "metadata", "labels")
+		if err != nil {
+			continue
+		}
+		if objLabels == nil {
+			objLabels = make(map[string]string, 1)
+		}
+		if _, ok := objLabels["controller-uid"]; !ok {
+			objLabels["controller-uid"] = string(parent.GetUID())
+			obj.SetLabels(objLabels)
+		}
+	}
 }
 
 type parentRevision struct {
